@@ -22,7 +22,7 @@ func init() {
 		Level:       "exploration",
 		Systematic:  c19Systematic,
 		Random:      c19Random,
-		RandomCount: func(tier string) int { return map[string]int{"quick": 1600, "thorough": 120000}[tier] },
+		RandomCount: func(tier string) int { return map[string]int{"quick": 2400, "thorough": 400000}[tier] },
 		Eval:        c19Eval,
 		Rule: "cases = (argv/file-system table, swept completely) + (generated programs of each outcome class: clean / lexical / syntax / runtime error at a drawn position, with print, ইনপুট and ক্লক lines around it) + (programs with k ইনপুট calls x stdin of 0..6 lines) each run under several stdin delivery schedules (all-at-once, line, byte, random cuts incl. inside UTF-8 sequences and zero-length reads) and, separately, under injected early EOF / EIO. " +
 			"distinct_nontrivial counts distinct (scenario kind, outcome class, #calls, #lines, final-newline, delivery mode, chunk-boundary pattern relative to line boundaries) tuples among cases that executed at least one delivery other than the neutral one or an argv/file fault.",
@@ -243,6 +243,12 @@ var c19Errors = []c19Err{
 	{"stray-dollar", "lex", "$", false},
 	{"unterminated-string", "lex", KwVar + " s = \"abc", true},
 	{"unterminated-comment", "lex", "/* never closed", true},
+	{"unterminated-comment-slash", "lex", "/*/ looks closed", true},
+	{"unterminated-comment-star", "lex", "/* almost *", true},
+	{"unterminated-comment-bare", "lex", "/*/", true},
+	{"unterminated-string-backslash", "lex", KwPrint + " \"C:\\tmp\\", true},
+	{"stray-backslash", "lex", KwPrint + " 1 \\ 2;", false},
+	{"stray-question", "lex", "?", false},
 	{"missing-name", "syn", KwVar + " = 5;", false},
 	{"missing-operand", "syn", KwPrint + " (1 + ;", false},
 	{"missing-semicolon-lenient", "syn", KwPrint + " 1 " + KwPrint + " 2;", false},
@@ -262,6 +268,30 @@ var c19Errors = []c19Err{
 	{"arity", "rt", FnLen + "();", false},
 }
 
+// valid lines with unusual lexical shapes: comment forms, strings holding
+// comment markers or backslashes, Bangla digits, odd spacing
+var c19Fancy = []struct{ text, out string }{
+	{"/*/ banner /*/", ""},
+	{"/**/", ""},
+	{"/***/", ""},
+	{"/* * / */", ""},
+	{"/* // */ " + KwPrint + " \"tc\";", "tc\n"},
+	{"// /* not an opening", ""},
+	{KwPrint + " \"a // not a comment\";", "a // not a comment\n"},
+	{KwPrint + " \"/* x */\";", "/* x */\n"},
+	{KwPrint + " 1; // trailing comment", "1\n"},
+	{KwPrint + " \"back\\slash\";", "back\\slash\n"},
+	{KwPrint + " \"q\\\";", "q\\\n"},
+	{KwPrint + " \u09e7\u09e8;", "12\n"},
+	{KwPrint + " \u09e7.\u09eb;", "1.5\n"},
+	{KwPrint + "   \"sp\"   ;", "sp\n"},
+	{"\t" + KwPrint + " \"tab\";\t", "tab\n"},
+	{KwPrint + " \"a\"; " + KwPrint + " \"b\";", "a\nb\n"},
+	{KwPrint + " \"@#$\";", "@#$\n"},
+	{"{ " + KwPrint + " \"blk\"; }", "blk\n"},
+	{";", "\x00"}, // placeholder, removed below (a lone ';' is not a statement)
+}
+
 func c19ClassCase(s Src, tag string) *Case {
 	n := s.Int("nlines", 1, 7)
 	type ln struct {
@@ -271,7 +301,10 @@ func c19ClassCase(s Src, tag string) *Case {
 	var body []ln
 	nin := 0
 	for i := 0; i < n; i++ {
-		switch s.Int("linekind", 0, 3) {
+		switch s.Int("linekind", 0, 5) {
+		case 4, 5:
+			f := c19Fancy[s.Int("fancy", 0, len(c19Fancy)-2)]
+			body = append(body, ln{text: f.text, out: f.out})
 		case 0, 1:
 			body = append(body, ln{text: fmt.Sprintf("%s %s;", KwPrint, bstr(fmt.Sprintf("t%d", i))), out: fmt.Sprintf("t%d\n", i)})
 		case 2:
@@ -297,7 +330,7 @@ func c19ClassCase(s Src, tag string) *Case {
 			rtIdx = pos
 			// optionally also a front-end error later in the text: then nothing runs at all
 			if Bool(s, "second") {
-				e2 := c19Errors[s.Int("errkind2", 0, 13)]
+				e2 := c19Errors[s.Int("errkind2", 0, 19)]
 				body = append(body, ln{text: e2.text})
 				class = e2.class
 				errName += "+" + e2.name
